@@ -19,15 +19,17 @@ import vlib
 
 NAMES = {"open": "o", "high": "h", "low": "l", "close": "c", "volume": "v", "c": "c", "x": "xs", "y": "ys"}
 
-# generic valid bars (open, high, low, close, volume): mid close / close at high with less volume / close at low /
-# flat bar (zero range) / wide bar / zero volume
+# generic valid bars (open, high, low, close, volume): mid close / close at high with less volume (the first two must differ in
+# typical price and volume, or ratio indicators are undefined everywhere) / flat bar (zero range) / zero volume / close at low /
+# wide bar
+# (the special bars come early: long words leave room for the first two or three symbols only)
 BARS = [
     dict(open=2, high=3, low=1, close=2, volume=2),
     dict(open=2, high=3, low=1, close=3, volume=1),
-    dict(open=3, high=3, low=2, close=2, volume=3),
     dict(open=2, high=2, low=2, close=2, volume=2),
-    dict(open=1, high=4, low=1, close=4, volume=1),
     dict(open=3, high=4, low=2, close=3, volume=0),
+    dict(open=3, high=3, low=2, close=2, volume=3),
+    dict(open=1, high=4, low=1, close=4, volume=1),
 ]
 NUMERIC = [2, 3, 1, 0, -1, 4]      # a numeric series: ties, zero, a negative value
 PRICE = [2, 3, 1, 4]
